@@ -82,9 +82,9 @@ func (pConn *PFCPConn) handleSessionEstablishmentRequest(msg message.Message) (m
 		return seres, errProcess(err)
 	}
 
-	if strings.Compare(nodeID, pConn.nodeID.remote) != 0 {
+	if remoteNodeID := pConn.remoteNodeID(); strings.Compare(nodeID, remoteNodeID) != 0 {
 		logger.PfcpLog.Warnln("association not found for Establishment request",
-			"with nodeID:", nodeID, ", association NodeID:", pConn.nodeID.remote)
+			"with nodeID:", nodeID, ", association NodeID:", remoteNodeID)
 		return errProcessReply(ErrAssocNotFound, ie.CauseNoEstablishedPFCPAssociation)
 	}
 
